@@ -13,6 +13,7 @@ Line-protocol driver for C04 (all numbers decimal, hashes/bytes hex; float64 val
   P hash j                                      -> hex of computePriority (real Keccak-256)
   MR | MC round | MW round (rewind onto another branch + its clear) | MQ round index step store -> ok | ok | ok | origin [stale-branch]         SortitionManager cache (stateful)
   SP verdict                                    -> accept|refuse|crash                        Server.verifyPriority given VrfVerifyPriority's verdict
+  CM kind pF vF cF known pL vL cL               -> committee                                  committee per kind (in force / cert look-back version)
   PP msgStep verdictAtPropose verdictAtMsgStep  -> accept|refuse|crash                        is a priority message recorded (Proposal pins Step)
   SS nodeRound nodeIndex msgRound msgIndex verdict -> accept|refuse|crash                     Server.verifySortition given VrfVerifySortition's verdict
   VS total threshold stake sub (ok:hash|err) [P:k:v ...]            -> verdict | need …
@@ -128,6 +129,15 @@ def stepPure (line : String) : String :=
       match parseVerdict v with
       | some v => showNode (nodePriorityOutcome v)
       | none => "bad-op"
+    | ["CM", kind, pf, vf, cf, known, pl, vl, cl] =>
+      match [pf, vf, cf, pl, vl, cl].mapM (·.toNat?) with
+      | some [pf, vf, cf, pl, vl, cl] =>
+        let k? : Option CredKind := if kind == "propose" then some .propose else if kind == "vote" then some .vote
+          else if kind == "certificate" then some .certificate else none
+        match k? with
+        | some k => s!"{committeeFor ⟨pf, vf, cf⟩ (if known == "1" then some ⟨pl, vl, cl⟩ else none) k}"
+        | none => "bad-op"
+      | _ => "bad-op"
     | ["PP", ms, v1, vm] =>
       match ms.toNat?, parseVerdict v1, parseVerdict vm with
       | some ms, some v1, some vm => showNode (proposalOutcome ms (fun st => if st = proposeStep then v1 else vm))
